@@ -62,7 +62,7 @@ ASSUMPTIONS = [
 ]
 
 ROUTES = ['wsgi', 'sb']
-METHODS = ['prims', 'echo', 'inners', 'strict']
+METHODS = ['prims', 'echo', 'inners', 'strict', 'noargs', 'multi']
 KINDS = ['bitflip', 'drop', 'dup', 'swap', 'zero', 'insert', 'trailing',
          'random', 'empty', 'splice', 'splice', 'lose_block', 'truncate']
 
@@ -87,6 +87,14 @@ SPLICE_TOKENS = [
     b'&#0;', b'&#xD800;', b'&bogus;', b'\xff\xfe', b'\xc3', b'\xe4\xb8',
     b'\x00', b'\x7f', b'\xef\xbb\xbf1', b'\xd9\xa1\xd9\xa2\xd9\xa3', b'\t1\n',
     b'a' * 70, b'9' * 1100,
+    # a span can also be a tag / key name
+    b'senv:Fault', b'senv:Body', b'senv:Header', b'senv:Envelope', b't:',
+    b'faultcode', b'xmlns', b'xsi:nil', b'?',
+    # msgpack scalars and containers (spans of msgpack documents are whole
+    # encoded objects)
+    b'\xc0', b'\xc2', b'\xc3', b'\x90', b'\x80', b'\x91\x01', b'\x81\xa1a\x01',
+    b'\xa1x', b'\xc4\x01x', b'\x05', b'\xcb\x7f\xf8\x00\x00\x00\x00\x00\x00',
+    b'\xd3\x80\x00\x00\x00\x00\x00\x00\x00', b'\xcf\xff\xff\xff\xff\xff\xff\xff\xff',
 ]
 
 
@@ -180,6 +188,36 @@ def _blocks(data):
     return [b for b in out if b[0] > 0]
 
 
+def _msgpack_spans(data):
+    """Byte spans of every encoded object (scalar or container) of a msgpack
+    document, found by re-encoding the decoded sub-objects."""
+    import msgpack
+    try:
+        doc = msgpack.unpackb(data, raw=False, strict_map_key=False)
+    except Exception:
+        return []
+    spans = []
+
+    def walk(o):
+        try:
+            enc = msgpack.packb(o, use_bin_type=True)
+        except Exception:
+            enc = None
+        if enc:
+            k = data.find(enc)
+            if k > 0:
+                spans.append((k, k + len(enc)))
+        if isinstance(o, dict):
+            for kk, v in o.items():
+                walk(kk)
+                walk(v)
+        elif isinstance(o, (list, tuple)):
+            for v in o:
+                walk(v)
+    walk(doc)
+    return sorted(set(spans))
+
+
 def _draw_ops(case, data, rng):
     n = len(data)
     if case['mode'] == 'truncate':
@@ -187,7 +225,10 @@ def _draw_ops(case, data, rng):
         if len(ks) > case['n'] * 4:
             ks = sorted(rng.sample(ks, case['n'] * 4))
         return [['truncate', k] for k in ks]
-    spans = _spans(data) or [(0, max(1, n))]
+    if case['in_prot'] in ('msgpack', 'msgpackrpc'):
+        spans = _msgpack_spans(data) or [(0, max(1, n))]
+    else:
+        spans = _spans(data) or [(0, max(1, n))]
     ops = []
     for _ in range(case['n']):
         kind = rng.choice(KINDS[:-1])
